@@ -362,6 +362,12 @@ class Ctx:
             "known_findings_fired": [f["id"] for f in self.known_fired],
             "notes": self.notes,
         }
+        if self.classes.get("tlaps_obligations_proved"):
+            # the unbounded part: proof obligations of spec/proofs/*.tla discharged by TLAPS in THIS run (the check fails otherwise)
+            cov["obligations"] = self.classes["tlaps_obligations_proved"]
+            cov["discharged"] = self.classes["tlaps_obligations_proved"]
+            cov["checker_cmd"] = "tlapm --threads 6 --cleanfp <module>.tla  (in a copy of spec/proofs, no fingerprint cache)"
+            cov["trusted_base"] = ["tlapm 1.6.0-pre", "Z3 (SMT back end)", "TLC 1.8.0 for the bridge modules that tie the proved formulas to the specification"]
         if self.level != "model_checking":
             cov["evaluations"] = max(self.checks, 1)
             cov["distinct_nontrivial"] = max(len(self.classes), 0)
